@@ -68,7 +68,9 @@ def freq_q(draw, lo_exp=-3, hi_exp=9.6, units=("Hz", "kHz", "MHz", "GHz", "1/s",
 def time0():
     """start time spec: None or (mjd, frac) -- a few instants right at leap seconds included"""
     leap = st.sampled_from([(57753, 0.99999), (57753, 0.9999884259259259), (57754, 0.0), (41498, 0.99998),
-                            (56108, 0.999995), (51544, 0.5)])
+                            (56108, 0.999995), (51544, 0.5),
+                            # any time of a UTC day that ends with a leap second (such a day is 86401 s long; astropy's day fraction is stretched)
+                            (57753, 0.5), (57203, 0.25), (56108, 0.125), (54831, 0.75), (50629, 0.0), (41498, 0.3)])
     # from 1972-07 on: before 1972 UTC had a variable rate against TAI ("rubber seconds"), where astropy's UTC<->TAI
     # round trip is only good to ~1e-9 s -- outside what any property here is about
     gen = st.tuples(st.integers(41500, 70000), st.floats(0.0, 1.0, exclude_max=True, allow_nan=False))
@@ -154,6 +156,14 @@ def signal_spec(draw, classes=CLASSES, nmin=0, nmax=300, dtypes=None, max_traili
         if not positive_band and draw(st.integers(0, 19)) == 0:
             v = draw(st.sampled_from([0.0, -v]))
         spec["cf"] = {"v": v, "u": un}
+    # input-kind variants that do not change the value: integer / single-precision Quantity dtypes, strings that are not the interned literals
+    if draw(st.integers(0, 5)) == 0:
+        for key, picks in (("sr", (0,)), ("cf", (0, 1)), ("bw", (0,))):
+            if key in spec and draw(st.booleans()):
+                k = O.qkind(spec[key]["v"], draw(st.sampled_from(picks)))
+                if k:
+                    spec[key] = dict(spec[key], k=k)
+        spec["str_kind"] = draw(st.sampled_from(["built", "npstr"]))
     if with_meta:
         spec["meta"] = draw(metas())
     kind = draw(st.sampled_from(list(data_kinds)))
@@ -203,6 +213,15 @@ def mk_data(spec, n=None, sshape=None, dtype=None):
     return np.ascontiguousarray(x.astype(dt))
 
 
+def mk_str(text, kind):
+    """the same text as a str object that is not the interned literal ("built") or as a numpy.str_"""
+    if kind == "built":
+        return "".join(list(text))
+    if kind == "npstr":
+        return np.str_(text)
+    return text
+
+
 def sig_kwargs(spec):
     kw = {"sample_rate": O.q(spec["sr"]), "start_time": mk_time(spec.get("t0"))}
     if "meta" in spec:
@@ -210,17 +229,91 @@ def sig_kwargs(spec):
     cls = spec["cls"]
     if cls != "Signal":
         kw["center_freq"] = O.q(spec["cf"])
-        kw["freq_align"] = spec["align"]
+        kw["freq_align"] = mk_str(spec["align"], spec.get("str_kind"))
         if cls not in BASEBAND:
             kw["chan_bw"] = O.q(spec["bw"])
     if cls == "DualPolarizationSignal":
-        kw["pol_type"] = spec["pol"]
+        kw["pol_type"] = mk_str(spec["pol"], spec.get("str_kind"))
     return kw
+
+
+_PINNED = []
+
+
+def pin(z):
+    """The next build(spec) (without data/chunks) returns THIS object instead of constructing one: lets a sub-check's ordinary runner be
+    driven over a history on one and the same signal object (per-object caches, memoised properties)."""
+    _PINNED[:] = [z]
+
+
+def unpin():
+    _PINNED[:] = []
+
+
+def reassign(z, old, new):
+    """Bring the NumPy-backed object z (built from spec `old`) to spec `new` through its public setters and in-place ufuncs on the signal
+    (never a new object). Returns False if the change cannot be expressed that way (class, shape or dtype differ)."""
+    if any(old[k] != new[k] for k in ("cls", "n", "sshape", "dtype")) or not isinstance(z.data, np.ndarray):
+        return False
+    if old.get("data") != new.get("data"):
+        x = mk_data(new)
+        np.multiply(z, 0, out=z)
+        np.add(z, x, out=z)
+        if not np.array_equal(np.asarray(z.data), x):  # (signed zeros, non-finite old data)
+            z.data[...] = x
+    ko, kn = sig_kwargs(old), sig_kwargs(new)
+    if old["sr"] != new["sr"]:
+        z.sample_rate = kn["sample_rate"]
+        if old["cls"] in BASEBAND:
+            z.chan_bw = kn["sample_rate"]
+    if old.get("t0") != new.get("t0"):
+        z.start_time = kn["start_time"]
+    if old["cls"] != "Signal":
+        if old["cf"] != new["cf"]:
+            z.center_freq = kn["center_freq"]
+        if old["align"] != new["align"]:
+            z.freq_align = kn["freq_align"]
+        if old["cls"] not in BASEBAND and old["bw"] != new["bw"]:
+            z.chan_bw = kn["chan_bw"]
+    if old["cls"] == "DualPolarizationSignal" and old.get("pol") != new.get("pol"):
+        z.pol_type = kn["pol_type"]
+    if old.get("meta") != new.get("meta") and "meta" in new:
+        z.meta = new["meta"]
+    return True
+
+
+class OneObject:
+    """History driver: runs a sub-check's ordinary runner step after step either on freshly built signals (enabled=False) or on ONE signal
+    object that is brought from each step's spec to the next through its public setters / in-place ufuncs."""
+
+    def __init__(self, enabled, spec):
+        import copy
+
+        self.z = build(spec) if enabled else None
+        self.spec = copy.deepcopy(spec)
+        self.reused = 0
+
+    def run(self, fn, cur, stt, key="sig"):
+        import copy
+
+        if self.z is not None:
+            if reassign(self.z, self.spec, cur[key]):
+                self.reused += 1
+            else:
+                self.z = build(cur[key])
+            self.spec = copy.deepcopy(cur[key])
+            pin(self.z)
+        try:
+            return fn(cur, stt)
+        finally:
+            unpin()
 
 
 def build(spec, data=None, chunks=None):
     import pulsarbat as pb
 
+    if _PINNED and data is None and chunks is None:
+        return _PINNED.pop()
     x = mk_data(spec) if data is None else data
     if chunks is not None:
         import dask.array as da
